@@ -35,6 +35,11 @@ var (
 type TV struct{ N int }  // value receiver
 func (TV) Error() string { return "TV" }
 
+// TX has the same underlying representation as TV and is a different type: never matched by a TV registration
+type TX struct{ N int }
+
+func (TX) Error() string { return "TX" }
+
 type TP struct{ N int }   // pointer receiver
 func (*TP) Error() string { return "TP" }
 
@@ -56,6 +61,8 @@ func buildErr(t term) error {
 		return TV{7}
 	case "TP":
 		return &TP{7}
+	case "TX":
+		return TX{7}
 	case "W":
 		return fmt.Errorf("w: %w", buildErr(t.Ch[0]))
 	case "WT":
@@ -225,6 +232,44 @@ func classifyRow[R any](row classRow, mk func(string) R, rev bool) (mis [][2]str
 		got := applied == 1 && err == marker
 		if applied > 1 || got != row.Fail || (!got && err != e) {
 			bad("fallback", "fallback applied=%d err=%v; rule says failure=%v", applied, err, row.Fail)
+		}
+	}
+	// (a2) the fallback's OWN outcome is classified by the same conditions: a fallback that is applied (to a failure chosen from
+	// its first condition) and produces this row's outcome leaves the execution a success iff the row is not a failure
+	if len(conds) > 0 {
+		var tr R
+		var te error
+		known := true
+		switch c0 := conds[0]; c0.T {
+		case "errors":
+			te = map[string]error{"E1": errE1, "E2": errE2, "E3": errE3}[c0.V]
+		case "types":
+			te = map[string]error{"TV": TV{1}, "TP": &TP{1}, "WT": WT{errE3}}[c0.V]
+		case "result":
+			tr = mk(c0.V)
+		case "if":
+			if c0.V == "p1" {
+				tr = mk("R1")
+			} else if c0.V == "p2" {
+				te = errE2
+			} else {
+				known = false
+			}
+		}
+		if known {
+			applied := 0
+			b := fallback.BuilderWithFunc(func(exec failsafe.Execution[R]) (R, error) { applied++; return r, e })
+			applyConds(conds, mk, func(x ...error) { b.HandleErrors(x...) }, func(x ...any) { b.HandleErrorTypes(x...) }, func(x R) { b.HandleResult(x) }, func(p func(R, error) bool) { b.HandleIf(p) })
+			verdict := ""
+			ex := failsafe.NewExecutor[R](b.Build()).OnSuccess(func(failsafe.ExecutionDoneEvent[R]) { verdict += "S" }).OnFailure(func(failsafe.ExecutionDoneEvent[R]) { verdict += "F" })
+			ex.Get(func() (R, error) { return tr, te })
+			want := "S"
+			if row.Fail {
+				want = "F"
+			}
+			if applied != 1 || verdict != want {
+				bad("fallback-own", "fallback applied %d times to a handled failure; producing this outcome the execution's verdict was %q; rule says failure=%v", applied, verdict, row.Fail)
+			}
 		}
 	}
 	// (b) retry policy retries iff failure
